@@ -65,7 +65,9 @@ FormatOf(e) ==
   LET base == CASE e.kind = "num"   -> calc.num
                 [] e.kind = "pct"   -> calc.pct
                 [] e.kind = "money" -> [d |-> e.digits, remove |-> calc.mon.remove, round |-> calc.mon.round]
-                [] e.kind = "unit"  -> [d |-> e.digits, remove |-> TRUE, round |-> TRUE]
+                \* a configured unit prints with 2 digits, rounding and removal; a user-defined one with the settings it was registered with
+                [] e.kind = "unit"  -> IF "uf" \in DOMAIN e THEN [d |-> e.uf.d, remove |-> e.uf.remove, round |-> e.uf.round]
+                                       ELSE [d |-> e.digits, remove |-> TRUE, round |-> TRUE]
   IN  [d |-> base.d, remove |-> base.remove, round |-> base.round, dec |-> Sep(calc.dec), tho |-> Sep(calc.tho)]
 Judge(ok, exp) == bad' = IF ok THEN bad ELSE IF Report(l, exp) THEN bad \cup {l} ELSE bad
 
